@@ -169,4 +169,5 @@ GET = Contract(
     props=["C10"],
 )
 
+GET.no_callee = True      # a one-line getter: callers inline it from the real source (its result type follows the stored value)
 CONTRACTS = [SET, mk_bound("min"), mk_bound("max"), GET]
